@@ -58,7 +58,8 @@ public:
     this->scanneable = right + 1;
     this->processed = left;
 
-    this->str = new uchar[maxlength + 1];
+    // The buffer also holds a prefix longer than every string (empty result)
+    this->str = new uchar[((prefixLen > maxlength) ? prefixLen : maxlength) + 1];
 
     if (prefixLen > 0)
       strncpy((char *)this->str, (char *)prefix, this->strLen);
